@@ -531,10 +531,26 @@ func (ev *c08Eval) eval(n *c08Node) c08Val {
 		a := ev.eval(n.A)
 		b := ev.eval(n.B)
 		ev.classify(n.Op, a, b)
+		if n.Op == "pow" && !c08ExactExp(n.B, b) {
+			ev.inexact = true
+		}
 		r := c08Bin(n.Op, a, b)
 		return r
 	}
 	return c08Err("#VALUE!")
+}
+
+// c08ExactExp: is the exponent one for which Go's math.Pow is reproduced bit for bit by the
+// driver (integer or ±0.5, given by an operator-free subtree so that both sides see the same value)?
+func c08ExactExp(n *c08Node, v c08Val) bool {
+	for n.Kind == "par" || n.Kind == "neg" {
+		n = n.A
+	}
+	if n.Kind == "bin" || n.Kind == "pct" {
+		return false
+	}
+	y, e := c08ToNum(v)
+	return e != "" || y == math.Trunc(y) || math.Abs(y) == 0.5
 }
 
 // peek evaluates without recording deviations
@@ -576,9 +592,6 @@ func (ev *c08Eval) classify(op string, a, b c08Val) {
 					ev.dev("pow:zero-base")
 				}
 				r = math.Pow(x, y)
-				if y != math.Trunc(y) && math.Abs(y) != 0.5 && !math.IsNaN(r) && !math.IsInf(r, 0) && r != 0 && x != 1 {
-					ev.inexact = true
-				}
 			}
 			if math.IsInf(r, 0) {
 				ev.dev("overflow-inf")
@@ -817,20 +830,26 @@ func (st *c08State) formula(r *Run, opname, key string, tree *c08Node, spaced bo
 		op = "cell " + hx(key) + " f " + toks + " | " + tb.String()
 	}
 	specS := c08SpecStr(spec)
+	noLine := false
 	if ev.inexact {
 		if spec.K != "num" || !strings.HasPrefix(raw, "num ") {
-			r.Stat("skipped:inexact-pow-nonnumeric")
+			r.Stat("skipped:inexact-pow-nonnumeric (oracle only)")
 			if key != "" {
 				// still define the cell for later references, but exactly as a blank on both sides
 				must(st.f.SetCellFormula(sheet, cell, ""))
+				return c08Val{K: "skip"}
 			}
-			return c08Val{K: "skip"}
+			noLine = true
+		} else {
+			op += " | tol " + strings.TrimPrefix(raw, "num ")
+			specS = "num~ ok"
+			r.Stat("tolerance-compared")
 		}
-		op += " | tol " + strings.TrimPrefix(raw, "num ")
-		specS = "num~ ok"
-		r.Stat("tolerance-compared")
 	}
-	ln := r.Op(op, raw+" render=ok tree=ok S="+specS)
+	ln := 0
+	if !noLine {
+		ln = r.Op(op, raw+" render=ok tree=ok S="+specS)
+	}
 	if key != "" {
 		st.lines = append(st.lines, op)
 	}
